@@ -150,6 +150,13 @@ def run(ctx, rep):
         unmarked = any(ex[0] in ("path", "proj") and ex[2] and ex[2][-1] == "delete_mark" and v == "0" for ex, v, sw in conds)
         ordn[var] = ordn.get(var, 0) + 1
         k = f"decide/{var}/{ordn[var]}"
+        if var in ("MarkDelete", "Delete", "KeepMarked", "KeepMarkedAndCorrect"):
+            # must-pass form: EVERY path to this decision has seen used_blobs == 0 (a weakened `== 0 || ..` does not pass)
+            is_used = lambda x: x[0] in ("path", "proj") and bool(x[2]) and x[2][-1] == "used_blobs"
+            tgt_blocks = [b_ for b_ in blks if b_ != bb] or [bb]
+            ev = all(only_via(DP, b_, is_used, "0") for b_ in tgt_blocks)
+            rep.check("C02.c", k + "/every-path", ev, where=where(DP, bb), what=f"{var}: every path to this decision has matched used_blobs == 0" if ev else
+                      f"{var} can be reached on a path that never established used_blobs == 0")
         if var in ("MarkDelete",):
             rep.check("C02.c", k, used0 and unmarked, where=where(DP, bb), what="a pack is marked for deletion only if it is unmarked and contains no used blob" if used0 and unmarked else "a pack can be MARKED FOR DELETION although it contains used blobs")
         elif var in ("Delete", "KeepMarked", "KeepMarkedAndCorrect"):
